@@ -57,11 +57,12 @@ def _ch(cp):
 
 
 class Tr:
-    def __init__(self, pattern):
+    def __init__(self, pattern, narrow=False):
+        self.narrow = narrow         # subject known to be latin-1 text: Nd digits / whitespace reduce to their latin-1 part
         self.p = pattern
         self.is_bytes = isinstance(pattern.pattern, bytes)
         self.flags = pattern.flags
-        self.maxch = 0xFF if self.is_bytes else MAXCH
+        self.maxch = 0xFF if (self.is_bytes or narrow) else MAXCH
         self.ascii = self.is_bytes or bool(self.flags & re.ASCII)
         self.icase = bool(self.flags & re.IGNORECASE)
         self.dotall = bool(self.flags & re.DOTALL)
@@ -77,10 +78,10 @@ class Tr:
         name = str(cat)
         neg = "NOT_" in name
         if "DIGIT" in name:
-            r = [_rng(0x30, 0x39)] if self.ascii else [_rng(a, b) for a, b in _nd_ranges()]
+            r = [_rng(0x30, 0x39)] if (self.ascii or self.narrow) else [_rng(a, b) for a, b in _nd_ranges()]
             base = _union(r)
         elif "SPACE" in name:
-            sp = [(9, 13), (32, 32)] if self.ascii else [(9, 13), (28, 32), (0x85, 0x85), (0xA0, 0xA0), (0x1680, 0x1680),
+            sp = [(9, 13), (32, 32)] if self.ascii else [(9, 13), (28, 32), (0x85, 0x85), (0xA0, 0xA0)] if self.narrow else [(9, 13), (28, 32), (0x85, 0x85), (0xA0, 0xA0), (0x1680, 0x1680),
                                                           (0x2000, 0x200A), (0x2028, 0x2029), (0x202F, 0x202F), (0x205F, 0x205F), (0x3000, 0x3000)]
             base = _union(_rng(a, b) for a, b in sp)
         elif "WORD" in name:
@@ -181,28 +182,28 @@ class Tr:
 _CACHE = {}
 
 
-def translate(pattern):
+def translate(pattern, narrow=False):
     """z3 regex for the language of `pattern` between its anchors; plus anchor info."""
-    key = (pattern.pattern, pattern.flags)
+    key = (pattern.pattern, pattern.flags, narrow)
     if key not in _CACHE:
-        t = Tr(pattern)
+        t = Tr(pattern, narrow)
         items, start, end = t.split_anchors()
         body = t.concat(t.seq(items))
         _CACHE[key] = (t, items, body, start, end)
     return _CACHE[key]
 
 
-def lang_fullmatch(pattern):
+def lang_fullmatch(pattern, narrow=False):
     """regex R such that pattern.fullmatch(s) is not None  <=>  s in R."""
-    t, items, body, start, end = translate(pattern)
+    t, items, body, start, end = translate(pattern, narrow)
     if end == "dollar":
         return z3.Union(body, z3.Concat(body, z3.Re("\n")))
     return body
 
 
-def lang_match(pattern):
+def lang_match(pattern, narrow=False):
     """pattern.match(s) is not None <=> s in R."""
-    t, items, body, start, end = translate(pattern)
+    t, items, body, start, end = translate(pattern, narrow)
     anyc = z3.Star(t.anychar())
     if end == "Z":
         return body
@@ -211,10 +212,10 @@ def lang_match(pattern):
     return z3.Concat(body, anyc)
 
 
-def lang_search(pattern):
-    t, items, body, start, end = translate(pattern)
+def lang_search(pattern, narrow=False):
+    t, items, body, start, end = translate(pattern, narrow)
     anyc = z3.Star(t.anychar())
-    r = lang_match(pattern)
+    r = lang_match(pattern, narrow)
     return r if start else z3.Concat(anyc, r)
 
 
@@ -271,20 +272,20 @@ class SPattern:
     def _match_obj(self, s, mode):
         """fork on match / no match; on match build the group split."""
         c = cx()
-        lang = {"fullmatch": lang_fullmatch, "match": lang_match, "search": lang_search}[mode](self.real)
+        lang = {"fullmatch": lang_fullmatch, "match": lang_match, "search": lang_search}[mode](self.real, s.narrow)
         if not c.branch(self._mem(s, lang)):
             return None
         if self.real.groups == 0:
             return SMatch(self, s, [])
         if mode != "fullmatch":
-            t, items, body, start, end = translate(self.real)
+            t, items, body, start, end = translate(self.real, s.narrow)
             if not (start and end) and mode == "search" or (mode == "match" and not end):
                 raise core.Unsupported("groups of a non-anchored %s" % mode)
         return self._split(s)
 
     def _split(self, s):
         c = cx()
-        t, items, body, start, end = translate(self.real)
+        t, items, body, start, end = translate(self.real, s.narrow)
         parts, terms = [], []
         for k, (op, av) in enumerate(items):
             r = t.item(op, av)
@@ -428,7 +429,7 @@ def regex_patches(mod, holders=()):
 
 def in_lang(s, pattern, mode="fullmatch"):
     """spec-level membership (no fork): SBool / bool."""
-    lang = {"fullmatch": lang_fullmatch, "match": lang_match, "search": lang_search}[mode](pattern)
+    lang = {"fullmatch": lang_fullmatch, "match": lang_match, "search": lang_search}[mode](pattern, getattr(s, "narrow", False))
     if isinstance(s, SStr):
         return SBool(z3.InRe(s.t, lang))
     return getattr(pattern, mode)(s) is not None
